@@ -8,6 +8,7 @@ pub mod kv;
 pub mod mutate;
 pub mod net;
 pub mod node;
+pub mod nonce;
 
 pub use exec::{Exec, Sched, Stop};
 pub use kv::MemKv;
